@@ -48,7 +48,22 @@ CFG = {
     "exhaustive": {"quick": False, "thorough": True},
     "shrink": False,
     "rule": "corpus (defect #17 input, the unit-test fixtures, one case per rejection rule, huge numbers, comments.case: the concrete instance of objstm_spelled_roundtrip and headers with comments in every run, accepted and rejected; filtered.case: the concrete instance of objstm_roundtrip_encoded - hex over Flate + PNG Up - and the two concrete corrupt-layer rejections; dynamic.case: the concrete instance of Props/C14Dyn.lean - the same members behind ONE dynamic-Huffman zlib block with a hand-written header - accepted, and cut in the Huffman-coded data / one byte before the end of the trailer / with an altered Adler-32 byte: rejected; tight.case: the minimal instances of the MINIMAL-LAYOUT family below - /N 1 /First 3 `7 0<<>>`, /N 2 /First 7 "
-            "`9 0 4 3[] ()` and `1 0 2 2[]()`, /N 7 /First 27, the two-digit boundary, /First one less (rejected) and one more, behind Flate / ASCIIHex / ASCII85 over Flate) + MINIMAL-LAYOUT headers, systematic (after missed seed C14_5, a fail-fast "
+            "`9 0 4 3[] ()` and `1 0 2 2[]()`, /N 7 /First 27, the two-digit boundary, /First one less (rejected) and one more, behind Flate / ASCIIHex / ASCII85 over Flate; views.case: 17 minimal cases on restricted views) "
+            "+ RESTRICTED VIEWS: every generated case below is run twice (quick tier: of the two big systematic enumerations - the exhaustive small space `ex` and the minimal-layout classes `tight..` - every second case; "
+            "thorough: all): on a plain ParseBuffer and (case tag `vw <steps> <prehex> <sufhex> <case>`, Driver/ViewTwin.lean, same design as C05) on a RESTRICTED VIEW whose window is the case's <viewhex> inside ONE larger "
+            "allocation pre ++ window ++ suf - the way the crate reaches an object stream (the stream's content inside the file's buffer); the harness applies the chain of RestrictView / RestrictViewFrom steps, checks that "
+            "the view shows exactly the window and runs ObjStreamP on the view: bytes in front 1 / 7 / 11 / 1000 (also 0, 2, 3, 5, 13, 64; a rotation of a text holding a header line, a complete object-stream object and a "
+            "plain object; or random bytes) x chain {RestrictView, RestrictViewFrom, From then View, View then View with junk on both sides of the inner window, View then From, View starting at 0 then From, View-From-View} "
+            "x bytes behind the window that CONTINUE or COMPLETE the stream {` 0 R ..` and digits (an integer member ending at the window's end would become a reference / a longer number), further integers, "
+            "for /First at or beyond the end of the data: padding and the content once more where /First points to, for an offset beyond the content: integers at every position up to 1000 bytes beyond the window, "
+            "the cut-off rest of a truncated stream / truncated encoded layer, for the exhaustive small space digits where an offset at or one beyond the end points to, endstream / endobj text and a whole object, nothing} "
+            "(periods 16 x 7 x 5, pairwise coprime); expectation = the expectation on the window's bytes alone - the same expected line (model of a view = model of its window, justified by C17's theorem view_refines_copy; "
+            "the unchanged code takes <cur> and reports the cursor as cursors of the view it was given, member spans stay relative to the content part of the (decoded) data; nothing is re-based to the allocation, nothing "
+            "outside the window is read, the decoders read the view from its cursor to ITS end); oracle classes of view cases are prefixed view-; plus the CUT family: 7 minimal-layout streams of 1..4 members whose "
+            "spellings are DELIMITED (string, array, dictionary, hex string, nested: every proper prefix of a member is no object) with the view ending at EVERY byte, the rest lying behind the view (and the same cut as "
+            "a plain buffer; quick: every 2nd plain cut) - rejected (class cut) where the view ends before the end of the last member, the same members where only trailing junk is lost - and one such stream behind "
+            "FlateDecode with the zlib stream cut at every byte (class cutflate: rejected) "
+            "+ MINIMAL-LAYOUT headers, systematic (after missed seed C14_5, a fail-fast "
             "`/N > /First / 4`): the header of N pairs packed as tightly as the syntax allows - no white space before the first identifier, every separator exactly ONE byte (each of the six "
             "white-space bytes, and mixtures), identifiers and offsets with the fewest digits, the first object directly after the last offset digit, /First = header length, which is 4N - 1 when all "
             "numbers are single digits (class tight; tight2 = some number needs two digits, incl. the boundary /First = 4N) - over members with the shortest spellings of each syntactic class "
@@ -83,9 +98,11 @@ CFG = {
             "object, id predefined, id repeated, 14 dictionary defects, offset beyond the content / 2^32 / 2^63-1 / 2^63 / 2^64 / 10^30, id replaced "
             "by a fresh one (must still extract), nesting bound below the deepest member, byte truncation/alteration and arbitrary header-number "
             "replacement (correspondence + no panic). non-trivial = >= 2 members or a Flate / filter-chain / minimal-layout case (rt), both offsets inside the content and distinct "
-            "(ex), >= 12 data bytes (rej/mut); distinct by case hash",
+            "(ex), >= 12 data bytes (rej/mut); a case on a view: the case is non-trivial and the window is a proper part of the allocation; distinct by case hash",
     "trusted_base": COMMON_TB + [
-        "modelled, not verified: ParseBuffer views as byte lists with a view-relative cursor (C17), BTreeMap as a key-ordered association list",
+        "modelled, not verified: ParseBuffer views as byte lists with a view-relative cursor (C17), BTreeMap as a key-ordered association list; the buffer ObjStreamP is GIVEN, when it is itself a restricted "
+            "view, is modelled by its window (the model of a `vw` case is the model of the case on the window's bytes, after checking that the chain of RestrictView / RestrictViewFrom steps selects that window by the "
+            "bounds rules of transforms.rs; justification: C17 view_refines_copy) - the correspondence run itself exercises the real parser on real views",
         "the filter decoders are a parameter of Model/ObjStm.lean; theorems of Props/C14Filtered.lean and the executable model of the correspondence run instantiate it as the loader does "
             "(Loader.objDec = C06 model of ASCIIHex/ASCII85/Flate + C07 predictor tail; their faithfulness is what C06/C07 check); DCTDecode is an opaque stub that fails",
         "reused models of the token parsers and parse_pdf_obj (Model/Prim.lean, Model/Obj.lean; theorems of C15/C16)",
@@ -108,7 +125,8 @@ LEVEL = {
             "whatever bytes lie between the objects; that everything it accepts is well formed (exactly /N pairs, increasing offsets inside the "
             "content, no object past the next offset, fresh distinct ids, /First inside the data), hence the five rejections of the statement; and "
             "that no panic site is reachable for any /N, /First or offset (set_cursor address arithmetic modelled on usize). The model is tied to the "
-            "real parser by a correspondence run on generated, corrupted and exhaustively enumerated small streams (members, spans, context lookups); "
+            "real parser by a correspondence run on generated, corrupted and exhaustively enumerated small streams (members, spans, context lookups), each run on a plain buffer and again with the parser's input being a "
+            "restricted view inside a larger allocation (junk in front, stream-continuing bytes behind, views ending at every byte of a stream), where the result must be that of the window's bytes alone; "
             "defect #17 (object read after the previous one instead of at its offset) is reproduced on the unfixed tree and repaired by C14-01. "
             "Composed with C02's spell_parse (objstm_spelled_roundtrip, Props/C14Spelled.lean): for a stream described purely by its bytes - a header of N "
             "'id offset' pairs in any layout of white space AND comments, anything up to /First, and at each declared offset an optional white-space/"
